@@ -1,44 +1,54 @@
 import Sucds.Proofs.GenIterators
 import Sucds.Proofs.GenCompactVector
-/-! # C17 over the iterators *generated from the Rust sources* — partial (3 of 9 containers' iterators)
+import Sucds.Proofs.GenDacsByte
+import Sucds.Proofs.GenDacsOpt
+import Sucds.Proofs.GenPsef
+import Sucds.Proofs.GenWavelet
+import Sucds.Proofs.C04GenAux
+/-! # C17 over the iterators *generated from the Rust sources*
 
-`Props/C17.lean` states C17 about the hand-written iterator models. Here the clauses that concern
-`BitVector::iter`, `CompactVector::iter` and `BitVector::unary_iter` (`next`, `skip1`, `skip0`) are stated about
-the definitions `tools/gen_fns.py` produces from `src/bit_vectors/bit_vector.rs` (`Iter`),
-`src/bit_vectors/bit_vector/unary.rs` (`UnaryIter`) and `src/int_vectors/compact_vector.rs` (`Iter`):
-`GenFn.bit_vector_Iter.{new, next, size_hint}`, `GenFn.compact_vector_Iter.{new, next, size_hint}`,
+`Props/C17.lean` states C17 about the hand-written iterator models. Here every clause is stated about the definitions
+`tools/gen_fns.py` produces from the `Iter` types of the crate: `GenFn.bit_vector_Iter`, `compact_vector_Iter`,
+`dacs_byte_Iter`, `dacs_opt_Iter`, `psef_Iter`, `wavelet_matrix_Iter_{Rank9Sel, DArray, BitVector}`
+(`{new, next, size_hint}`), `GenFn.iter_Iter.{new, next}` (`EliasFano::iter(k)`) and
 `GenFn.UnaryIter.{new, next, skip1, skip0}`. A generated `next(&mut self)` returns `(new self, answer)`.
+Where C17 builds the container with a model constructor, the container here is the one the *generated* constructor
+returns (`from_slice`, `WaveletMatrix::new`, `EliasFanoBuilder::new`/`push`…/`build`/`enable_rank`).
 
-The history runners (defined in `Proofs/GenIterators.lean`, equations restated below as `rfl`-examples):
-* `bvRunN c it n`, `cvRunN c it n` — `n` times: `size_hint()`, then `next()`; collects `(answer, size_hint)`;
+The history runners (defined next to the equivalence proofs, equations restated below as `rfl`-examples):
+* `bvRunN`, `cvRunN`, `dbRunN`, `doRunN`, `psRunN`, `wmRunN`, `wm_daRunN`, `wm_bvRunN` `c it n` — `n` times:
+  `size_hint()`, then `next()`; collects `(answer, size_hint)`. `n` is arbitrary, so the runs include any number of
+  calls after exhaustion. What they must produce is `C17.expected xs n` (the same right-hand side as in C17);
+* `efGenItRun c n it` — `n` successive `next()` calls on an `EliasFano` iterator: the final iterator and the answers;
 * `gNexts c n it` — the answers of `n` successive `next()` calls on a `UnaryIter`;
 * `gRunSkips c it ops` — the answers of the `skip1(k)`/`skip0(k)` calls listed in `ops`, in order.
 
-**Missing (hence `Statement_partial`)**: the clauses of `C17.Statement` for `DacsByte::iter`, `DacsOpt::iter`,
-`PrefixSummedEliasFano::iter`, `WaveletMatrix::iter` (three backings) and `EliasFano::iter(k)`. Their generated
-definitions exist (`GenFn.dacs_byte_Iter`, `dacs_opt_Iter`, `psef_Iter`, `wavelet_matrix_Iter_*`, `iter_Iter`) but
-no equivalence theorem between the generated `access`/`select`/`next` of these containers and the model exists yet
-in `Sucds/Proofs/Gen*.lean`, so nothing can be transferred.
-
-Hypotheses added to the model clauses (those of the `GenEq` theorems, nothing else):
+Hypotheses added to the model clauses (those of the `GenEq` theorems — bounds by `usize::MAX`/`isize::MAX`, nothing else):
 * `b.len < 2^64`, `v.chunks.len < 2^64`, `v.len < 2^64` — `usize` fields;
+* `DacsByte`: the slice length is a `usize`; `PrefixSummedEliasFano`: `3 * vals.size + 2 < 2^63` and `EliasFano`:
+  `m + (u >> low_len) + 2 < 2^63` — the high-bit vector is indexed by a `DArray`, which stores positions as `isize`
+  (as in `C12Gen`, `C04Gen`); `WaveletMatrix`: the input `CompactVector` `cv` represents `s`, and the bit lengths
+  `cv.len * cv.width` and `s.length * bitlen (max s + 1)` are `usize` (as in `C05Gen`);
 * unary iterator, a run of `n` calls from position `p`: `p + 64 * n < 2^64` and `bv.len + 64 * n ≤ 2^64` — the code
   does `self.pos += 64` on a `usize` at every word boundary *and on every call after exhaustion*, the model counts in
   unbounded `Nat`; within these bounds no such addition overflows. (So "every `p`" of C17 becomes "every `p` at
   least `64 * n` below `usize::MAX`": see `near_usize_max` at the end for what happens beyond.) `skip` arguments
   are `usize`. -/
 namespace Sucds.C17Gen
-open Sucds Sucds.Spec
-open Sucds.GenEq (bvRunN cvRunN gNexts gRunSkips skipArg)
+open Sucds Sucds.Spec Sucds.EFB
+open Sucds.GenEq (bvRunN cvRunN dbRunN doRunN psRunN wmRunN wm_daRunN wm_bvRunN efGenItRun genRun resU lowLenOf
+  gNexts gRunSkips skipArg)
 open Sucds.C17 (expected)
 
--- the runners, unfolded one step (definitions in `Proofs/GenIterators.lean`)
-example (c : Cfg) (it : GenFn.bit_vector_Iter) (n : Nat) : bvRunN c it (n+1) =
+-- the runners, unfolded one step (the eight `…RunN` have this same equation; definitions in `Proofs/Gen*.lean`)
+example (c : Cfg) (it : GenFn.bit_vector_Iter) (n : Nat) : bvRunN c it 0 = .ok [] ∧ bvRunN c it (n+1) =
     (GenFn.bit_vector_Iter.size_hint c it).bind fun sh => (GenFn.bit_vector_Iter.next c it).bind fun r =>
-      (bvRunN c r.1 n).bind fun l => .ok ((r.2, sh) :: l) := rfl
-example (c : Cfg) (it : GenFn.compact_vector_Iter) (n : Nat) : cvRunN c it (n+1) =
-    (GenFn.compact_vector_Iter.size_hint c it).bind fun sh => (GenFn.compact_vector_Iter.next c it).bind fun r =>
-      (cvRunN c r.1 n).bind fun l => .ok ((r.2, sh) :: l) := rfl
+      (bvRunN c r.1 n).bind fun l => .ok ((r.2, sh) :: l) := ⟨rfl, rfl⟩
+example (c : Cfg) (it : GenFn.wavelet_matrix_Iter_DArray) (n : Nat) : wm_daRunN c it 0 = .ok [] ∧ wm_daRunN c it (n+1) =
+    (GenFn.wavelet_matrix_Iter_DArray.size_hint c it).bind fun sh => (GenFn.wavelet_matrix_Iter_DArray.next c it).bind fun r =>
+      (wm_daRunN c r.1 n).bind fun l => .ok ((r.2, sh) :: l) := ⟨rfl, rfl⟩
+example (c : Cfg) (n : Nat) (it : GenFn.iter_Iter) : efGenItRun c 0 it = .ok (it, []) ∧ efGenItRun c (n+1) it =
+    (efGenItRun c n it).bind fun r => (GenFn.iter_Iter.next c r.1).bind fun s => .ok (s.1, r.2 ++ [s.2]) := ⟨rfl, rfl⟩
 example (c : Cfg) (it : GenFn.UnaryIter) (n : Nat) : gNexts c (n+1) it =
     (GenFn.UnaryIter.next c it).bind fun r => (gNexts c n r.1).bind fun l => .ok (r.2 :: l) := rfl
 example (c : Cfg) (it : GenFn.UnaryIter) (k : Nat) (ops : List UIter.Skip) : gRunSkips c it (.s1 k :: ops) =
@@ -47,15 +57,44 @@ example (c : Cfg) (it : GenFn.UnaryIter) (k : Nat) (ops : List UIter.Skip) : gRu
     (GenFn.UnaryIter.skip0 c it k).bind fun s => (gRunSkips c s.1 ops).bind fun l => .ok (s.2 :: l) := rfl
 example (c : Cfg) (it : GenFn.UnaryIter) : gNexts c 0 it = .ok [] ∧ gRunSkips c it [] = .ok [] := ⟨rfl, rfl⟩
 
-/-- C17 for the generated `BitVector::iter`, `CompactVector::iter`, `BitVector::unary_iter`
-    (clauses 1, 2, 8, 9 of `C17.Statement`; clauses 3–7 are missing, see the header) -/
-def Statement_partial : Prop :=
+/-- C17 for the generated iterators (the nine clauses of `C17.Statement`, in the same order) -/
+def Statement : Prop :=
   -- BitVector::iter
   (∀ (c : Cfg) (b : BV), b.Inv → b.len < 2^64 →
     ∀ n, bvRunN c (GenFn.BitVector.iter b) n = .ok (expected b.toList n)) ∧
   -- CompactVector::iter
   (∀ (c : Cfg) (v : CV) (xs : List Nat), CV.Rep v xs → v.chunks.len < 2^64 → v.len < 2^64 →
     ∀ n, cvRunN c (GenFn.CompactVector.iter v) n = .ok (expected xs n)) ∧
+  -- DacsByte::iter
+  (∀ (c : Cfg) (vals : Array Nat), (∀ v ∈ vals, v < 2^64) → vals.size < 2^64 →
+    ∃ d, GenFn.DacsByte.from_slice c vals = .ok (RS.Res.ok d) ∧
+      ∀ n, dbRunN c (GenFn.DacsByte.iter d) n = .ok (expected vals.toList n)) ∧
+  -- DacsOpt::iter
+  (∀ (c : Cfg) (vals : Array Nat) (ml : Option Nat), (∀ v ∈ vals, v < 2^64) → vals.size < 2^57 →
+    1 ≤ ml.getD 64 ∧ ml.getD 64 ≤ 64 →
+    ∃ d, GenFn.DacsOpt.from_slice c vals ml = .ok (RS.Res.ok d) ∧
+      ∀ n, doRunN c (GenFn.DacsOpt.iter d) n = .ok (expected vals.toList n)) ∧
+  -- PrefixSummedEliasFano::iter
+  (∀ (c : Cfg) (vals : Array Nat), vals.size ≠ 0 → vals.toList.sum + 1 < 2^64 → 3 * vals.size + 2 < 2^63 →
+    ∃ p, GenFn.PrefixSummedEliasFano.from_slice c vals = .ok (RS.Res.ok p) ∧
+      ∀ n, psRunN c (GenFn.PrefixSummedEliasFano.iter p) n = .ok (expected vals.toList n)) ∧
+  -- WaveletMatrix::iter, three backings
+  (∀ (c : Cfg) (cv : CV) (s : List Nat), CV.Rep cv s → s ≠ [] → s.foldl max 0 + 1 < 2^64 → s.length < 2^63 →
+    cv.len * cv.width < 2^64 → s.length * SpecX.bitlen (s.foldl max 0 + 1) < 2^64 →
+    (∃ wm, GenFn.WaveletMatrix_Rank9Sel.new c cv = .ok (.ok wm) ∧
+      ∀ n, wmRunN c (GenFn.WaveletMatrix_Rank9Sel.iter wm) n = .ok (expected s n)) ∧
+    (∃ wm, GenFn.WaveletMatrix_DArray.new c cv = .ok (.ok wm) ∧
+      ∀ n, wm_daRunN c (GenFn.WaveletMatrix_DArray.iter wm) n = .ok (expected s n)) ∧
+    (∃ wm, GenFn.WaveletMatrix_BitVector.new c cv = .ok (.ok wm) ∧
+      ∀ n, wm_bvRunN c (GenFn.WaveletMatrix_BitVector.iter wm) n = .ok (expected s n))) ∧
+  -- EliasFano::iter(k)
+  (∀ (c : Cfg) (u m : Nat) (hist : List Nat), m ≠ 0 → u < 2^64 → m + (u >>> lowLenOf u m) + 2 < 2^63 →
+    ∃ b0 b' e0 e, GenFn.EliasFanoBuilder.new c u m = .ok (RS.Res.ok b0) ∧
+      genRun c b0 hist = .ok (b', (verdicts u m [] hist).map resU) ∧
+      GenFn.EliasFanoBuilder.build c b' = .ok e0 ∧ GenFn.EliasFano.enable_rank c e0 = .ok e ∧
+      ∀ k, ∃ it0, GenFn.EliasFano.iter c e k = .ok it0 ∧
+        ∀ t, ∃ it', efGenItRun c ((accepted u m [] hist).length - k + t) it0 =
+          .ok (it', ((accepted u m [] hist).drop k).map some ++ List.replicate t none)) ∧
   -- unary iterator: next
   (∀ (c : Cfg) (bv : BV), bv.Inv → ∀ p n, p + 64 * n < 2^64 → bv.len + 64 * n ≤ 2^64 →
     gNexts c n (GenFn.BitVector.unary_iter bv p) = .ok ((List.range n).map (selFrom bv.bitAt bv.len p))) ∧
@@ -64,28 +103,107 @@ def Statement_partial : Prop :=
     p + 64 * ops.length < 2^64 → bv.len + 64 * ops.length ≤ 2^64 →
     gRunSkips c (GenFn.BitVector.unary_iter bv p) ops = .ok (UIter.specSkips bv.bitAt bv.len (some p) ops))
 
-theorem holds_partial : Statement_partial :=
-  ⟨fun c b h hl n => GenEq.bv_iter_c17 c b h hl n,
-   fun c v xs h hc hl n => GenEq.cv_iter_c17 c v xs h (by rw [← h.clen]; exact hc) hl n,
-   fun c bv h p n hp hl => GenEq.unary_nexts_c17 c bv h p n hp hl,
-   fun c bv h p ops hk hp hl => GenEq.unary_skips_c17 c bv h p ops hk hp hl⟩
+theorem holds : Statement := by
+  refine ⟨fun c b h hl n => GenEq.bv_iter_c17 c b h hl n,
+    fun c v xs h hc hl n => GenEq.cv_iter_c17 c v xs h (by rw [← h.clen]; exact hc) hl n,
+    fun c vals hv hn => ?_, fun c vals ml hv hn hml => ?_, fun c vals hne hs hn => ?_,
+    fun c cv s h hne hmax hn hsz hnW =>
+      ⟨GenEq.wm_c17 c cv s h hne hmax hn hsz hnW, GenEq.wm_da_c17 c cv s h hne hmax hn hsz hnW,
+       GenEq.wm_bv_c17 c cv s h hne hmax hn hsz hnW⟩,
+    fun c u m hist hm hu hsz => ?_,
+    fun c bv h p n hp hl => GenEq.unary_nexts_c17 c bv h p n hp hl,
+    fun c bv h p ops hk hp hl => GenEq.unary_skips_c17 c bv h p ops hk hp hl⟩
+  · obtain ⟨d, a1, _, _, _, _, _, _, _, _, a10⟩ := GenEq.dacs_byte_c11 c vals hv hn
+    exact ⟨d, a1, a10⟩
+  · obtain ⟨d, a1, _, _, _, _, _, _, _, _, _, a11⟩ := (GenEq.dacs_opt_c10 c vals ml hv hn).2 hml
+    exact ⟨d, a1, a11⟩
+  · obtain ⟨p, a1, _, _, _, _, _, a7⟩ := GenEq.ps_from_slice_answers c vals hne hs hn
+    exact ⟨p, a1, a7⟩
+  · obtain ⟨b0, b', e0, e, h1, h2, h3, h4, A, _⟩ := GenEq.ef_generated_answers c u m hist hm hu hsz
+    exact ⟨b0, b', e0, e, h1, h2, h3, h4, A.iter⟩
 
-/-- configuration independence of the generated iterators (C15 for these three iterators) -/
+/-- the answers of `iter(k)` followed by `n` calls of `next()` -/
+def efIterAnswers (c : Cfg) (e : EF) (k n : Nat) : R (List (Option Nat)) :=
+  (GenFn.EliasFano.iter c e k).bind fun it => (efGenItRun c n it).bind fun r => .ok r.2
+
+/-- configuration independence of the generated iterators (C15 for the iterators): a container built by the generated
+    constructor in one configuration and iterated in that configuration gives the same answers and size hints as
+    the container built and iterated in another (that the two containers are *equal* is `config_independent` of
+    C11Gen, C10Gen, C12Gen, C05Gen, C04Gen). -/
 theorem config_independent (c c' : Cfg) :
     (∀ (b : BV), b.Inv → b.len < 2^64 → ∀ n,
       bvRunN c (GenFn.BitVector.iter b) n = bvRunN c' (GenFn.BitVector.iter b) n) ∧
     (∀ (v : CV) (xs : List Nat), CV.Rep v xs → v.chunks.len < 2^64 → v.len < 2^64 → ∀ n,
       cvRunN c (GenFn.CompactVector.iter v) n = cvRunN c' (GenFn.CompactVector.iter v) n) ∧
+    (∀ (vals : Array Nat), (∀ v ∈ vals, v < 2^64) → vals.size < 2^64 → ∀ d d',
+      GenFn.DacsByte.from_slice c vals = .ok (RS.Res.ok d) → GenFn.DacsByte.from_slice c' vals = .ok (RS.Res.ok d') →
+      ∀ n, dbRunN c (GenFn.DacsByte.iter d) n = dbRunN c' (GenFn.DacsByte.iter d') n) ∧
+    (∀ (vals : Array Nat) (ml : Option Nat), (∀ v ∈ vals, v < 2^64) → vals.size < 2^57 → ∀ d d',
+      GenFn.DacsOpt.from_slice c vals ml = .ok (RS.Res.ok d) → GenFn.DacsOpt.from_slice c' vals ml = .ok (RS.Res.ok d') →
+      ∀ n, doRunN c (GenFn.DacsOpt.iter d) n = doRunN c' (GenFn.DacsOpt.iter d') n) ∧
+    (∀ (vals : Array Nat), vals.toList.sum + 1 < 2^64 → 3 * vals.size + 2 < 2^63 → ∀ p p',
+      GenFn.PrefixSummedEliasFano.from_slice c vals = .ok (RS.Res.ok p) →
+      GenFn.PrefixSummedEliasFano.from_slice c' vals = .ok (RS.Res.ok p') →
+      ∀ n, psRunN c (GenFn.PrefixSummedEliasFano.iter p) n = psRunN c' (GenFn.PrefixSummedEliasFano.iter p') n) ∧
+    (∀ (cv : CV) (s : List Nat), CV.Rep cv s → s ≠ [] → s.foldl max 0 + 1 < 2^64 → s.length < 2^63 →
+      cv.len * cv.width < 2^64 → s.length * SpecX.bitlen (s.foldl max 0 + 1) < 2^64 →
+      (∀ w w', GenFn.WaveletMatrix_Rank9Sel.new c cv = .ok (.ok w) → GenFn.WaveletMatrix_Rank9Sel.new c' cv = .ok (.ok w') →
+        ∀ n, wmRunN c (GenFn.WaveletMatrix_Rank9Sel.iter w) n = wmRunN c' (GenFn.WaveletMatrix_Rank9Sel.iter w') n) ∧
+      (∀ w w', GenFn.WaveletMatrix_DArray.new c cv = .ok (.ok w) → GenFn.WaveletMatrix_DArray.new c' cv = .ok (.ok w') →
+        ∀ n, wm_daRunN c (GenFn.WaveletMatrix_DArray.iter w) n = wm_daRunN c' (GenFn.WaveletMatrix_DArray.iter w') n) ∧
+      (∀ w w', GenFn.WaveletMatrix_BitVector.new c cv = .ok (.ok w) → GenFn.WaveletMatrix_BitVector.new c' cv = .ok (.ok w') →
+        ∀ n, wm_bvRunN c (GenFn.WaveletMatrix_BitVector.iter w) n = wm_bvRunN c' (GenFn.WaveletMatrix_BitVector.iter w') n)) ∧
+    -- EliasFano: both configurations build the same sequence `e`; `iter(k)` on it answers the same
+    (∀ (u m : Nat) (hist : List Nat), m ≠ 0 → u < 2^64 → m + (u >>> lowLenOf u m) + 2 < 2^63 →
+      ∃ b0 b' e0 e, (∀ c, GenFn.EliasFanoBuilder.new c u m = .ok (RS.Res.ok b0)) ∧
+        (∀ c, genRun c b0 hist = .ok (b', (verdicts u m [] hist).map resU)) ∧
+        GenFn.EliasFanoBuilder.build c b' = .ok e0 ∧ GenFn.EliasFanoBuilder.build c' b' = .ok e0 ∧
+        GenFn.EliasFano.enable_rank c e0 = .ok e ∧ GenFn.EliasFano.enable_rank c' e0 = .ok e ∧
+        ∀ k t, efIterAnswers c e k (GenFn.EliasFano.len e - k + t) = efIterAnswers c' e k (GenFn.EliasFano.len e - k + t)) ∧
     (∀ (bv : BV), bv.Inv → ∀ p n, p + 64 * n < 2^64 → bv.len + 64 * n ≤ 2^64 →
       gNexts c n (GenFn.BitVector.unary_iter bv p) = gNexts c' n (GenFn.BitVector.unary_iter bv p)) ∧
     (∀ (bv : BV), bv.Inv → ∀ p (ops : List UIter.Skip), (∀ op, op ∈ ops → skipArg op < 2^64) →
       p + 64 * ops.length < 2^64 → bv.len + 64 * ops.length ≤ 2^64 →
       gRunSkips c (GenFn.BitVector.unary_iter bv p) ops = gRunSkips c' (GenFn.BitVector.unary_iter bv p) ops) := by
-  obtain ⟨a1, a2, a3, a4⟩ := holds_partial
-  exact ⟨fun b h hl n => by rw [a1 c b h hl n, a1 c' b h hl n],
+  obtain ⟨a1, a2, a3, a4, a5, a6, _, a8, a9⟩ := holds
+  -- two `Ok` results of the same call are the same value
+  have inj : ∀ {α : Type} {x : R (RS.Res α)} {d e : α}, x = .ok (RS.Res.ok d) → x = .ok (RS.Res.ok e) → e = d :=
+    fun h1 h2 => by rw [h1] at h2; injection h2 with h2; injection h2 with h2; exact h2.symm
+  refine ⟨fun b h hl n => by rw [a1 c b h hl n, a1 c' b h hl n],
     fun v xs h hc hl n => by rw [a2 c v xs h hc hl n, a2 c' v xs h hc hl n],
-    fun bv h p n hp hl => by rw [a3 c bv h p n hp hl, a3 c' bv h p n hp hl],
-    fun bv h p ops hk hp hl => by rw [a4 c bv h p ops hk hp hl, a4 c' bv h p ops hk hp hl]⟩
+    fun vals hv hn d d' hd hd' n => ?_, fun vals ml hv hn d d' hd hd' n => ?_, fun vals hs hn p p' hp hp' n => ?_,
+    fun cv s h hne hmax hn hsz hnW => ?_, fun u m hist hm hu hsz => ?_,
+    fun bv h p n hp hl => by rw [a8 c bv h p n hp hl, a8 c' bv h p n hp hl],
+    fun bv h p ops hk hp hl => by rw [a9 c bv h p ops hk hp hl, a9 c' bv h p ops hk hp hl]⟩
+  · obtain ⟨x, hx, rx⟩ := a3 c vals hv hn
+    obtain ⟨y, hy, ry⟩ := a3 c' vals hv hn
+    rw [inj hx hd, inj hy hd', rx n, ry n]
+  · by_cases hml : 1 ≤ ml.getD 64 ∧ ml.getD 64 ≤ 64
+    · obtain ⟨x, hx, rx⟩ := a4 c vals ml hv hn hml
+      obtain ⟨y, hy, ry⟩ := a4 c' vals ml hv hn hml
+      rw [inj hx hd, inj hy hd', rx n, ry n]
+    · rw [(GenEq.dacs_opt_c10 c vals ml hv hn).1 hml] at hd
+      injection hd with hd; cases hd
+  · by_cases hne : vals.size = 0
+    · have : vals = #[] := Array.eq_empty_of_size_eq_zero hne
+      subst this; cases hp
+    · obtain ⟨x, hx, rx⟩ := a5 c vals hne hs hn
+      obtain ⟨y, hy, ry⟩ := a5 c' vals hne hs hn
+      rw [inj hx hp, inj hy hp', rx n, ry n]
+  · obtain ⟨⟨x1, hx1, rx1⟩, ⟨x2, hx2, rx2⟩, ⟨x3, hx3, rx3⟩⟩ := a6 c cv s h hne hmax hn hsz hnW
+    obtain ⟨⟨y1, hy1, ry1⟩, ⟨y2, hy2, ry2⟩, ⟨y3, hy3, ry3⟩⟩ := a6 c' cv s h hne hmax hn hsz hnW
+    exact ⟨fun w w' hw hw' n => by rw [inj hx1 hw, inj hy1 hw', rx1 n, ry1 n],
+      fun w w' hw hw' n => by rw [inj hx2 hw, inj hy2 hw', rx2 n, ry2 n],
+      fun w w' hw hw' n => by rw [inj hx3 hw, inj hy3 hw', rx3 n, ry3 n]⟩
+  · obtain ⟨b0, b', e0, e, _, hn, hr, k1, k2, j1, j2, A, A', _⟩ := GenEq.ef_pipeline_hist c c' u m hist hm hu hsz
+    refine ⟨b0, b', e0, e, hn, hr, k1, j1, k2, j2, fun k t => ?_⟩
+    obtain ⟨i0, h0, hrun⟩ := A.iter k
+    obtain ⟨i0', h0', hrun'⟩ := A'.iter k
+    obtain ⟨i1, h1⟩ := hrun t
+    obtain ⟨i1', h1'⟩ := hrun' t
+    unfold efIterAnswers
+    rw [A.len, h0, h0', GenEq.bok, GenEq.bok, h1, h1']
+    rfl
 
 /-! ### non-vacuity and closed evaluations -/
 
@@ -109,6 +227,11 @@ example : gRunSkips ⟨true, false⟩ (GenFn.BitVector.unary_iter (BV.fromBits b
     .ok [some 2, some 5, some 9, none, none] := ok_of_toOption _ _ (by decide +kernel)
 example : bvRunN ⟨true, false⟩ (GenFn.BitVector.iter (BV.fromBits [true, false])) 3 =
     .ok [(some true, (2, some 2)), (some false, (1, some 1)), (none, (0, some 0))] := ok_of_toOption _ _ (by decide +kernel)
+-- `DacsByte::from_slice(&[5, 300, 70000])`, then five rounds of `size_hint(); next()`: two of them after exhaustion
+example : ((GenFn.DacsByte.from_slice ⟨true, false⟩ #[5, 300, 70000]).bind fun r => (RS.unwrapRes r).bind fun d =>
+      dbRunN ⟨true, false⟩ (GenFn.DacsByte.iter d) 5).toOption =
+    some [(some 5, (3, some 3)), (some 300, (2, some 2)), (some 70000, (1, some 1)), (none, (0, some 0)), (none, (0, some 0))] := by
+  decide +kernel
 
 -- CompactVector: the hypotheses hold of the vector the generated `from_int(5, 3, 4)` builds; its iterator yields
 -- `5, 5, 5` with size hints `3, 2, 1`, then `None` with hint `0`
@@ -118,8 +241,24 @@ example (c : Cfg) : ∃ v, GenFn.CompactVector.from_int c 5 3 4 = .ok (RS.Res.ok
   obtain ⟨v, hf, hr, hw⟩ := GenEq.cv_from_int_ok c 5 3 4 (by decide) (by decide) (by decide) (by decide) (by decide)
   have hlen : v.len = 3 := hr.len
   refine ⟨v, hf, ?_⟩
-  rw [holds_partial.2.1 c v _ hr (by rw [hr.clen, hlen, hw]; decide) (by rw [hlen]; decide) 4]
+  rw [holds.2.1 c v _ hr (by rw [hr.clen, hlen, hw]; decide) (by rw [hlen]; decide) 4]
   rfl
+
+-- the hypotheses of the constructor clauses hold of concrete inputs (every configuration, through the theorem):
+-- `PrefixSummedEliasFano::from_slice(&[5, 0, 14])` and `EliasFano` with pushes `1, 3, 3, 2 (refused), 17`, `iter(1)`
+example (c : Cfg) : ∃ p, GenFn.PrefixSummedEliasFano.from_slice c #[5, 0, 14] = .ok (RS.Res.ok p) ∧
+    psRunN c (GenFn.PrefixSummedEliasFano.iter p) 4 =
+      .ok [(some 5, (3, some 3)), (some 0, (2, some 2)), (some 14, (1, some 1)), (none, (0, some 0))] := by
+  obtain ⟨p, h1, h2⟩ := holds.2.2.2.2.1 c #[5, 0, 14] (by decide) (by decide) (by decide)
+  exact ⟨p, h1, by rw [h2 4]; rfl⟩
+example (c : Cfg) : ∃ b0 b' e0 e it0 it', GenFn.EliasFanoBuilder.new c 20 4 = .ok (RS.Res.ok b0) ∧
+    genRun c b0 [1, 3, 3, 2, 17] = .ok (b', [.ok (), .ok (), .ok (), .err, .ok ()]) ∧
+    GenFn.EliasFanoBuilder.build c b' = .ok e0 ∧ GenFn.EliasFano.enable_rank c e0 = .ok e ∧
+    GenFn.EliasFano.iter c e 1 = .ok it0 ∧ efGenItRun c 5 it0 = .ok (it', [some 3, some 3, some 17, none, none]) := by
+  obtain ⟨b0, b', e0, e, h1, h2, h3, h4, h5⟩ := holds.2.2.2.2.2.2.1 c 20 4 [1, 3, 3, 2, 17] (by decide) (by decide) (by decide)
+  obtain ⟨it0, h6, h7⟩ := h5 1
+  obtain ⟨it', h8⟩ := h7 2
+  exact ⟨b0, b', e0, e, it0, it', h1, h2, h3, h4, h6, h8⟩
 
 /-- outside the hypotheses (`p + 64 * n < 2^64` fails): on the one-bit vector `[1]`, `unary_iter(usize::MAX).next()`
     panics on overflow in a checked build and, in an unchecked build, wraps around to word 0 and answers `Some(0)`,
